@@ -471,6 +471,41 @@ def systematic():
     return cs
 
 
+
+# symbolic links that ALREADY exist inside the destination: (path, target, kind of what the target is)
+LINKS = [(b"o/w/dest/ln", b"../vdir", "dir"), (b"o/w/dest/labs", b"/o/w/vdir", "dir"), (b"o/w/dest/lf", b"../victim", "file"),
+         (b"o/w/dest/sub/ln2", b"../../vdir", "dir"), (b"o/w/dest/lin", b"sub", "inside"),
+         (b"o/w/dest/dl", b"../created-through-link", "dangling"), (b"o/w/dest/lup", b"..", "ancestor"),
+         (b"o/w/dest/ltop", b"../../top", "file")]
+
+
+def link_case(path, target, kind, variant, p):
+    """a well-formed stream with PLAIN names only that meets the link"""
+    name = path.rsplit(b"/", 1)[1]
+    t = b"T1234567890 0 1234567891 0\n" if p else b""
+    pre = post = b""
+    if path.startswith(b"o/w/dest/sub/"):
+        pre, post = t + b"D0755 0 sub\n", b"E\n"
+    if variant == "enter":          # a directory record with the link's name, a file inside
+        body, block = t + b"D0700 0 " + name + b"\n" + t + b"C0644 5 pwned\nhello\0E\n", "f"
+    elif variant == "enter2":       # ... two levels
+        body, block = (t + b"D0755 0 " + name + b"\n" + t + b"D0750 0 inner\n" + t + b"C0600 3 k\nabc\0E\nE\n"), "f"
+    else:                           # a file record with the link's name
+        body, block = t + b"C0604 3 " + name + b"\nXYZ\0", "d"
+    return C(pre + body + post + t + b"C0644 2 after\nok\0", p=p, links=[(path, target)], link_block=block,
+             # the translation to the link-free model covers links to existing things outside the destination
+             oracle_only=kind in ("dangling", "ancestor"))
+
+
+def link_cases():
+    cs = []
+    for path, target, kind in LINKS:
+        for variant in ("enter", "enter2", "file"):
+            for p in (0, 1):
+                cs.append(link_case(path, target, kind, variant, p))
+    return cs
+
+
 # --------------------------------------------------------------------------------------- running
 def op_line(jail, c):
     return "sink %s /%s %s %d %d %o %d %d %s" % (jail, CWD.decode(), hx(c["dest"]), c["p"], c["y"], c["um"], c["fd"],
@@ -478,23 +513,54 @@ def op_line(jail, c):
 
 
 def model_line(c, ents, cnt, var):
-    return "sink %d %d %o %d %d %d %d %s %s %s %s" % (c["p"], c["y"], c["um"], cnt, var["rule"], var["dch"],
-                                                      c.get("fsz", 0), hx(CWD), hx(c["dest"]), hx(c["stream"]),
-                                                      " ".join(e.token() for e in ents))
+    op, toks = "sink", []
+    for e in ents:
+        if e.kind != "l":
+            toks.append(e.token())
+        elif var.get("follow", 1):
+            # the receiver follows links: the model runs on the link-free view (Pcp/Links.lean graftAll)
+            op = "sinkl"
+            toks.append("%s:l:777:%d:h%s" % (hx(e.path), e.mtime, link_target_canon(e.path, e.data).hex()))
+        else:
+            # lstat/O_NOFOLLOW: a link is something in the way -- of a directory record like a file, of a file record
+            # like a directory
+            toks.append(Ent(e.path, c.get("link_block", "f"), 0o777, e.mtime, b"").token())
+    return "%s %d %d %o %d %d %d %d %s %s %s %s" % (op, c["p"], c["y"], c["um"], cnt, var["rule"], var["dch"],
+                                                    c.get("fsz", 0), hx(CWD), hx(c["dest"]), hx(c["stream"]), " ".join(toks))
 
 
 _CAND = re.compile(rb"[CD][0-7]{4} \d* ([^\n\0]*)")
 
 
-def escape_signature(stream):
-    """narrow class of the D13 finding: the stream contains a control record whose name has a `/` or is `..`"""
+def escape_signature(stream, c=None):
+    """narrow class of the D13 finding: the stream contains a control record whose name has a `/` or is `..`;
+    of F12-SYMLINK-FOLLOW: every received name is plain, and a symbolic link was waiting inside the destination"""
     for m in _CAND.finditer(stream):
         if pcp.hostile_name(m.group(1)):
             return "escape:received-name-with-slash-or-dotdot"
+    if c is not None and c.get("links"):
+        return "escape:through-symlink-inside-destination"
     return "escape:other"
 
 
+def link_entries(c):
+    """symbolic links that exist inside the destination before the copy (case field `links`: (path, target))"""
+    return [Ent(path, "l", 0o777, OLD + 40 + i, target) for i, (path, target) in enumerate(c.get("links") or [])]
+
+
+def link_target_canon(path, target):
+    """canonical path (relative to the jail root) of a link's target"""
+    return pcp.lexnorm(path.rsplit(b"/", 1)[0] if b"/" in path else b"", target)
+
+
 def case_json(c):
+    if c.get("links"):
+        return dict(_case_json(c), links=[[a.decode("latin-1"), b.decode("latin-1")] for a, b in c["links"]],
+                    oracle_only=bool(c.get("oracle_only")), link_block=c.get("link_block", "f"))
+    return _case_json(c)
+
+
+def _case_json(c):
     return dict(stream_hex=c["stream"].hex(), stream_text=c["stream"][:200].decode("latin-1"),
                 dest=c["dest"].decode("latin-1"), cwd="/" + CWD.decode(), preserve=c["p"], target_is_dir=c["y"],
                 umask="%o" % c["um"], fdmode=c["fd"], prepopulated=c["prepop"], destmode="%o" % c["destmode"],
@@ -509,7 +575,7 @@ def run_cases(ctx, exe, cases, cnt, var, cov, dist, distinct, tag="pcp_server()"
     os.makedirs(base)
     jails, ents_l = [], []
     for k, c in enumerate(cases):
-        ents = jail_entries(c["prepop"], c["destmode"], c.get("bigold", False))
+        ents = jail_entries(c["prepop"], c["destmode"], c.get("bigold", False)) + link_entries(c)
         j = os.path.join(base, "j%d" % k)
         pcp.build_jail(j, ents)
         jails.append(j)
@@ -569,7 +635,7 @@ def oracle_only(c, f, snap, ents, t0):
     dcanon = pcp.lexnorm(CWD, c["dest"])
     ch = pcp.changed_paths({e.path: e for e in ents}, snap, t0)
     if any(not (dcanon == b"" or q == dcanon or q.startswith(dcanon + b"/")) for q in ch):
-        sigs.add(escape_signature(c["stream"]))
+        sigs.add(escape_signature(c["stream"], c))
     wf, _ = pcp.analyse(c["stream"])
     if not wf and not any(r.startswith("E:") for r in replies):
         sigs.add("malformed-unanswered")
@@ -593,7 +659,7 @@ def shrink(ctx, exe, c, sig):
     def fails(ps):
         c2 = dict(c, stream=b"".join(ps))
         shutil.rmtree(j, ignore_errors=True)
-        ents = jail_entries(c2["prepop"], c2["destmode"], c2.get("bigold", False))
+        ents = jail_entries(c2["prepop"], c2["destmode"], c2.get("bigold", False)) + link_entries(c2)
         pcp.build_jail(j, ents)
         t0 = int(time.time())
         (ans, crash), = run_batch([exe], [[op_line(j, c2)]], timeout=60, env=dict(os.environ, ASAN_OPTIONS="detect_leaks=0"))
@@ -677,7 +743,7 @@ def judge(ctx, cases, jails, ents_l, answers, crashes, mlines, t0, cov, dist, di
             esc = [pcp.unhx(x).decode("latin-1") for x in sp.split()[1].split(",")]
             cj["escaped_paths"] = esc[:10]
             cj["destination_canonical"] = "/" + dcanon.decode("latin-1")
-            esig = escape_signature(c["stream"])
+            esig = escape_signature(c["stream"], c)
             ctx.offender(esig, "the receiver created or modified %s outside its destination /%s" %
                          (", ".join("/" + e for e in esc[:4]), dcanon.decode("latin-1")),
                          dict(small(c, esig), receiver=tag, escaped_paths=esc[:10],
@@ -699,6 +765,9 @@ def judge(ctx, cases, jails, ents_l, answers, crashes, mlines, t0, cov, dist, di
             ctx.offender("reply-garbled", "the reply stream is not a sequence of acknowledgements and error records: %s"
                          % ",".join(replies[:20]), cj)
         # ---- correspondence: model vs implementation
+        if c.get("oracle_only"):
+            dist["oracle_only_cases"] = dist.get("oracle_only_cases", 0) + 1
+            continue
         try:
             m = pcp.parse_model(mlines[k])
         except Exception as e:
@@ -713,7 +782,14 @@ def judge(ctx, cases, jails, ents_l, answers, crashes, mlines, t0, cov, dist, di
                              "reply %d: impl %s model %s" % (i, replies[i:i + 3], m["replies"][i:i + 3]), cj)
             dist["model_mismatch"] += 1
             continue
-        diffs = pcp.compare_fs(m["fs"], snaps[k], t0)
+        snap_m = snaps[k]
+        if c.get("links"):
+            # the links themselves are not nodes of the model's file system (a receiver cannot change them: `changed`)
+            dist["link_cases"] = dist.get("link_cases", 0) + 1
+            lp = set(path for path, _ in c["links"])
+            snap_m = {q: r for q, r in snaps[k].items() if not (q in lp and r["kind"] == "l")}
+            m["fs"] = {q: r for q, r in m["fs"].items() if q not in lp}
+        diffs = pcp.compare_fs(m["fs"], snap_m, t0)
         if diffs:
             dist["model_mismatch"] += 1
             ctx.disagreement("pcp sink file system (%s)" % tag, "; ".join(diffs[:4]), cj)
@@ -730,11 +806,11 @@ def probe_variant(ctx, exe):
     """which receiver is in /repo?  Probed, never configured:
     rule 0 = no name validation (code as found), 1 = names with `/` and the name `..` rejected, 2 = scp rule (also
     the empty name and `.`); dch = with -p a new directory is chmod'ed after mkdir (repair of F11-DIRMODE-SETID)"""
-    def one(stream, p=0):
+    def one(stream, p=0, links=None):
         j = os.path.join(ctx.scratch, "probe_jail")
         shutil.rmtree(j, ignore_errors=True)
-        pcp.build_jail(j, jail_entries(False, 0o755))
-        c = C(stream, prepop=False, p=p)
+        c = C(stream, prepop=False, p=p, links=links)
+        pcp.build_jail(j, jail_entries(False, 0o755) + link_entries(c))
         (ans, crash), = run_batch([exe], [[op_line(j, c)]], env=dict(os.environ, ASAN_OPTIONS="detect_leaks=0"))
         snap = pcp.snapshot(j)
         shutil.rmtree(j, ignore_errors=True)
@@ -750,12 +826,16 @@ def probe_variant(ctx, exe):
         rule = 2 if any(rej) else 1
     _, snap = one(b"D6755 0 pd\nE\n", p=1)
     dch = int(snap.get(b"o/w/dest/pd", {}).get("mode") == 0o6755)
-    return dict(rule=rule, dch=dch)
+    # does the receiver follow a symbolic link that is already inside the destination?
+    _, snap = one(b"D0755 0 ln\nC0644 1 pdshverif_probe\nX\0E\n", links=[(b"o/w/dest/ln", b"../vdir")])
+    follow = int(b"o/w/vdir/pdshverif_probe" in snap)
+    return dict(rule=rule, dch=dch, follow=follow)
 
 
 def variant_text(var):
-    return "names: %s; chmod after mkdir with -p: %s" % (
-        ["no validation (code as found)", "`/` and `..` rejected", "scp rule"][var["rule"]], "yes" if var["dch"] else "no")
+    return "names: %s; chmod after mkdir with -p: %s; symbolic links inside the destination: %s" % (
+        ["no validation (code as found)", "`/` and `..` rejected", "scp rule"][var["rule"]], "yes" if var["dch"] else "no",
+        "followed (code as found)" if var.get("follow", 1) else "refused (lstat/O_NOFOLLOW)")
 
 
 def child_setup(um, fsz):
@@ -856,7 +936,9 @@ def run(ctx):
         n = 1000 if ctx.quick() else 40000
         sysc = systematic()
         dist["systematic_cases"] = len(sysc)
-        cases = list(CORPUS) + sysc
+        lc = link_cases()
+        dist["symlink_cases_pinned"] = len(lc)
+        cases = list(CORPUS) + sysc + lc
         if ctx.replay:
             import json
             rc = json.load(open(ctx.replay)).get("case", {})
@@ -864,7 +946,9 @@ def run(ctx):
                 cases.insert(0, C(bytes.fromhex(rc["stream_hex"]), dest=rc["dest"].encode("latin-1"),
                                   p=rc["preserve"], y=rc["target_is_dir"], um=int(rc["umask"], 8), fd=rc["fdmode"],
                                   prepop=rc["prepopulated"], destmode=int(rc["destmode"], 8),
-                                  fsz=rc.get("file_size_limit", 0), bigold=rc.get("bigold", False)))
+                                  fsz=rc.get("file_size_limit", 0), bigold=rc.get("bigold", False),
+                                  links=[(a.encode("latin-1"), b.encode("latin-1")) for a, b in rc["links"]] if rc.get("links") else None,
+                                  oracle_only=rc.get("oracle_only", False), link_block=rc.get("link_block", "f")))
         cases += [gen_case(rng) for _ in range(n)]
         import random
         rng2 = random.Random(ctx.seed * 7919 + 12)       # own stream: the cases above stay what they were
